@@ -276,7 +276,7 @@ func (ro *Roles) dequeueIndependent(r *Report, rule string) {
 						r.Undecided(rule, fname+": composition with the admission table", w.InstrPos(e.In), "cannot evaluate the ignore-delay argument "+args[2]+": "+err)
 						return
 					}
-					if ign != 1 {
+					if ign != ro.modeValue(true) {
 						bad = fmt.Sprintf("for a queued job with no pending timer and own delay %d the ignore-delay argument is %s = false: the decision then consults the CURRENT definition's start_delay, and a reload that introduces a delay makes the admission answer Queue forever for jobs queued before it (they are stranded)", jd, args[2])
 					}
 				}
